@@ -850,6 +850,9 @@ func (x *Exec) verifyFunc(fn *ssa.Function, ct *Contract) {
 			if m.PanicsIff == nil {
 				m.PanicsIff = ic.PanicsIff
 			}
+			if m.Decreases == nil {
+				m.Decreases = ic.Decreases
+			}
 			if len(m.Assigns) == 0 {
 				m.Assigns = ic.Assigns
 			}
